@@ -39,6 +39,7 @@ const stepTimeout = 180 * time.Second
 // event recorder (shared by all modes)
 
 type grantInfo struct {
+	uuid  string
 	owner string
 	key   string
 	n     int           // interned id
@@ -60,6 +61,11 @@ type recorder struct {
 	onEvent  func(ev string, p string, g *grantInfo, found bool)
 	keep     []any // keeps queue objects of earlier runs alive so that pointers are not reused
 	curLock  lock.Lock
+	lastIDs  map[string][]int       // key -> queue as of the last enq / rem line
+	pending  []map[string]any       // grant / wdexit lines waiting for the enq / rem line that explains them
+	wdLive   map[int]*grantInfo     // grants whose watchdog goroutine is (believed) alive
+	wdGoid   map[string]int64       // uuid -> goroutine of its watchdog
+	wdExited map[string]bool
 }
 
 // keyOf maps the queue object of an event to its lock key (cached: a pruned queue is no longer in the map).
@@ -92,6 +98,11 @@ func (r *recorder) reset(l lock.Lock) {
 	r.qkey = map[any]string{}
 	r.ttlGids = map[int64]bool{}
 	r.cancGids = map[int64]bool{}
+	r.lastIDs = map[string][]int{}
+	r.pending = nil
+	r.wdLive = map[int]*grantInfo{}
+	r.wdGoid = map[string]int64{}
+	r.wdExited = map[string]bool{}
 	if r.byGoid == nil {
 		r.byGoid = map[int64]*proc{}
 	}
@@ -146,7 +157,7 @@ func (r *recorder) hook(ev string, kv ...any) {
 			return // not one of ours
 		}
 		r.nextN++
-		g := &grantInfo{owner: pname, key: k, n: r.nextN, gone: make(chan struct{})}
+		g := &grantInfo{uuid: u, owner: pname, key: k, n: r.nextN, gone: make(chan struct{})}
 		r.ids[u] = g
 		r.byN[g.n] = u
 		if p != nil {
@@ -154,7 +165,10 @@ func (r *recorder) hook(ev string, kv ...any) {
 			p.curUUID = u
 		}
 		head, _ := m["head"].(bool)
-		r.w.Emit(map[string]any{"ev": "enq", "p": pname, "k": k, "id": g.n, "found": b2i(head), "ids": r.intern(strs(m["ids"])), "cause": ""})
+		ids := r.intern(strs(m["ids"]))
+		r.w.Emit(map[string]any{"ev": "enq", "p": pname, "k": k, "id": g.n, "found": b2i(head), "ids": ids, "cause": ""})
+		r.lastIDs[k] = ids
+		r.flush()
 		if r.onEvent != nil {
 			r.onEvent("enq", pname, g, head)
 		}
@@ -164,10 +178,25 @@ func (r *recorder) hook(ev string, kv ...any) {
 			return
 		}
 		ttl, _ := m["ttl"].(int64)
-		r.w.Emit(map[string]any{"ev": "grant", "p": g.owner, "k": g.key, "id": g.n, "found": 0, "ids": []int{}, "cause": "", "ttl_ms": ttl / 1e6})
+		// the remove that made this caller the head wakes it before it logs itself (its lock.rem event is emitted when
+		// remove returns, still under q.mu): keep the grant line until that line is out
+		r.pending = append(r.pending, map[string]any{"ev": "grant", "p": g.owner, "k": g.key, "id": g.n, "found": 0, "ids": []int{}, "cause": "", "ttl_ms": ttl / 1e6})
+		r.wdLive[g.n] = g
+		r.flush()
 		if r.onEvent != nil {
 			r.onEvent("grant", g.owner, g, true)
 		}
+	case "lock.watchdog.start":
+		r.wdGoid[u] = gid
+	case "lock.watchdog.exit":
+		g := r.ids[u]
+		if g == nil {
+			return
+		}
+		r.wdExited[u] = true
+		// (same for the watchdog woken by close(c.done) inside a remove that has not logged itself yet)
+		r.pending = append(r.pending, map[string]any{"ev": "wdexit", "p": "", "k": g.key, "id": g.n, "found": 0, "ids": []int{}, "cause": ""})
+		r.flush()
 	case "lock.rem":
 		k, known := r.keyOf(m["q"])
 		if !known {
@@ -198,13 +227,88 @@ func (r *recorder) hook(ev string, kv ...any) {
 		if g != nil {
 			n = g.n
 		}
-		r.w.Emit(map[string]any{"ev": "rem", "cause": cause, "p": pname, "k": k, "id": n, "found": b2i(found), "ids": r.intern(strs(m["ids"]))})
+		ids := r.intern(strs(m["ids"]))
+		r.w.Emit(map[string]any{"ev": "rem", "cause": cause, "p": pname, "k": k, "id": n, "found": b2i(found), "ids": ids})
+		r.lastIDs[k] = ids
+		r.flush()
 		if found && g != nil {
 			g.once.Do(func() { close(g.gone) })
 		}
 		if r.onEvent != nil {
 			r.onEvent("rem-"+cause, pname, g, found)
 		}
+	}
+}
+
+// flush emits the pending grant lines whose caller is the head of its queue as logged so far, and the pending
+// wdexit lines whose grant is no longer in its queue as logged so far. The caller holds r.mu.
+func (r *recorder) flush() {
+	rest := r.pending[:0]
+	for _, ln := range r.pending {
+		k, n := ln["k"].(string), ln["id"].(int)
+		ids := r.lastIDs[k]
+		ok := false
+		switch ln["ev"] {
+		case "grant":
+			ok = len(ids) > 0 && ids[0] == n
+		case "wdexit":
+			ok = true
+			for _, x := range ids {
+				if x == n {
+					ok = false
+				}
+			}
+		}
+		if ok {
+			r.w.Emit(ln)
+			if ln["ev"] == "wdexit" {
+				delete(r.wdLive, n)
+			}
+		} else {
+			rest = append(rest, ln)
+		}
+	}
+	r.pending = rest
+}
+
+// watchdogs waits until every watchdog of a grant that has left its queue has ended or is seen parked (in its select
+// or at the driver's gate) in two consecutive dumps, and returns the grants whose watchdog is alive.
+func (r *recorder) watchdogs() ([]int, bool) {
+	deadline := time.Now().Add(stepTimeout)
+	prevStable := false
+	for {
+		st := states()
+		r.mu.Lock()
+		settled := len(r.pending) == 0
+		for _, g := range r.wdLive {
+			select {
+			case <-g.gone:
+			default:
+				continue // the grant is current: its watchdog is supposed to be there
+			}
+			if r.wdExited[g.uuid] {
+				settled = false // the exit line is still pending
+				continue
+			}
+			gid, ok := r.wdGoid[g.uuid]
+			if !ok || (st[gid] != "select" && st[gid] != "chan receive") {
+				settled = false
+			}
+		}
+		out := make([]int, 0, len(r.wdLive))
+		for n := range r.wdLive {
+			out = append(out, n)
+		}
+		r.mu.Unlock()
+		sort.Ints(out)
+		if settled && prevStable {
+			return out, true
+		}
+		prevStable = settled
+		if time.Now().After(deadline) {
+			return out, false
+		}
+		time.Sleep(50 * time.Microsecond)
 	}
 }
 
@@ -396,8 +500,10 @@ func qmapOf(l lock.Lock) []string {
 	return ks
 }
 
-func emitRest(w *trace.Writer, pcs map[string]string, qmap []string) {
-	w.Emit(map[string]any{"ev": "rest", "pcs": pcs, "qmap": qmap, "p": "", "k": "", "id": 0, "found": 0, "ids": []int{}, "cause": ""})
+func emitRest(w *trace.Writer, pcs map[string]string, qmap []string) bool {
+	wd, ok := rec.watchdogs()
+	w.Emit(map[string]any{"ev": "rest", "pcs": pcs, "qmap": qmap, "wd": wd, "p": "", "k": "", "id": 0, "found": 0, "ids": []int{}, "cause": ""})
+	return ok
 }
 
 func emitReset(w *trace.Writer) int {
@@ -476,9 +582,19 @@ func installReplayYield() {
 		switch point {
 		case "lock.ttl":
 			u, _ := args[0].(string)
+			rec.mu.Lock()
+			gi := rec.ids[u]
+			rec.mu.Unlock()
+			if gi == nil {
+				return
+			}
 			g := wdOf(u)
 			g.at.Store(true)
-			<-g.ch
+			select {
+			case <-g.ch: // the schedule says: the TTL fires now
+			case <-gi.gone: // the grant is over (unlocked): nothing to hold back
+			}
+			g.at.Store(false)
 		case "lock.cancelled":
 			gid := sched.GoID()
 			rec.mu.Lock()
@@ -520,11 +636,11 @@ func runReplayTest(ti int, steps []step, tw *trace.Writer) replayResult {
 	}
 	restLine := func() bool {
 		pcs, ok := w.rest()
-		emitRest(tw, pcs, qmapOf(w.l))
-		if !ok {
+		ok2 := emitRest(tw, pcs, qmapOf(w.l))
+		if !ok || !ok2 {
 			res.Infra = fmt.Sprintf("no point of rest: %v", pcs)
 		}
-		return ok
+		return ok && ok2
 	}
 	for k, s := range steps {
 		a := s.Act
@@ -623,7 +739,6 @@ func runReplayTest(ti int, steps []step, tw *trace.Writer) replayResult {
 			rec.mu.Lock()
 			gi := rec.ids[p.retID]
 			rec.mu.Unlock()
-			g.at.Store(false)
 			g.ch <- struct{}{}
 			select {
 			case <-gi.gone:
@@ -698,7 +813,6 @@ func runReplayTest(ti int, steps []step, tw *trace.Writer) replayResult {
 	wdMu.Lock()
 	for _, g := range wdGates {
 		if g.at.Load() {
-			g.at.Store(false)
 			select {
 			case g.ch <- struct{}{}:
 			case <-time.After(time.Second):
